@@ -36,3 +36,53 @@ def node_of(c, x):
 
 def nodes_of(c, D):
     return c.setof(lambda n: c.exists(["id"], lambda x: z3.And(sel(D, x), n == node_of(c, x))))
+
+
+# ------------------------------------------------------------------ attribute setters: documented effect (C05)
+def _attr_tabs(S, which):
+    return (S.nak, S.NAh, S.NAv) if which == "node" else (S.eak, S.EAh, S.EAv)
+
+
+def setter_effect(c, which, S, S0, values, name, D, mode):
+    """Effect of set_node_attributes / set_edge_attributes on the attribute records, for the ids in D (already processed):
+    mode 'dd'   : record(x) <- record(x) updated with the dict values[x]          (dict of dicts, name is None)
+    mode 'dv'   : record(x)[name] <- values[x]                                      (dict of values, name given)
+    mode 'const': record(x)[name] <- values                                         (one value for every id)
+    every other record is unchanged; ids of `values` that are not in the network are ignored."""
+    ak0, Ah0, Av0 = _attr_tabs(S0, which)
+    ak, Ah, Av = _attr_tabs(S, which)
+    vals = c.avals(values)
+
+    def per(x):
+        h, v, h0, v0 = sel(Ah, x), sel(Av, x), sel(Ah0, x), sel(Av0, x)
+        if mode == "dd":
+            d = sel(vals, x)
+            upd = rec_update(c, h0, v0, c.akeys(d), c.avals(d))(h, v)
+        else:
+            new = sel(vals, x) if mode == "dv" else values
+            upd = z3.And(c.forall(["id"], lambda k: sel(h, k) == z3.Or(sel(h0, k), k == name)),
+                         c.forall(["id"], lambda k: z3.Implies(sel(h, k), sel(v, k) == z3.If(k == name, new, sel(v0, k)))))
+        return z3.If(sel(D, x), upd, rec_eq(c, h, v, h0, v0))
+    return c.forall(["id"], lambda x: z3.Implies(sel(ak0, x), per(x)))
+
+
+def setter_loop(which, mode, base):
+    """Loop invariant of one of the three loops of an attribute setter: `base` (the structural part) + the effect on the ids done."""
+    def inv(c, A, K):
+        groups = base(c, A, K)
+        if not isinstance(groups, list):
+            groups = [G("inv", ("C01", "C02", "C04", "C05"), groups)]
+        return groups + [G("effect", ("C05",), setter_effect(c, which, K.S, A.S0, A.values.term, A.name.term, K.done, mode))]
+    return inv
+
+
+def setter_post(which):
+    def post(c, A, R):
+        S, S0, values, name = R.S, A.S0, A.values.term, A.name.term
+        keys = c.akeys(values)
+        allk = _attr_tabs(S0, which)[0]
+        return z3.And(
+            z3.Implies(name == c.NONE, setter_effect(c, which, S, S0, values, name, keys, "dd")),
+            z3.Implies(z3.And(name != c.NONE, c.is_dict(values)), setter_effect(c, which, S, S0, values, name, keys, "dv")),
+            z3.Implies(z3.And(name != c.NONE, z3.Not(c.is_dict(values))), setter_effect(c, which, S, S0, values, name, allk, "const")))
+    return post
